@@ -252,9 +252,10 @@ def specCheck (toks : List String) (reqs : List Req) (crashed : List Nat := []) 
   let topics := toks.filterMap fun t => match splitColon t with | ["t", n, c] => some (n, c.toNat!) | _ => none
   -- topics: acknowledged creations exist, nothing unknown exists
   for r in reqs do
-    if r.kind == "CT" && r.acked && r.res == ["0"] then
+    -- (CP = CreatePartitions: counts only grow, so an acknowledged creation / growth to c leaves at least c partitions)
+    if (r.kind == "CT" || r.kind == "CP") && r.acked && r.res == ["0"] then
       match r.args with
-      | [n, c] => if !topics.contains (n, c.toNat!) then return some "acked-topic-lost"
+      | [n, c] => if !topics.any (fun t => t.1 == n && t.2 ≥ c.toNat!) then return some "acked-topic-lost"
       | _ => pure ()
   for (n, _) in topics do
     if n != "t0" && !(reqs.any fun r => r.kind == "CT" && r.args.head? == some n) then return some "unknown-topic"
